@@ -112,7 +112,10 @@ class TR(Base):
         d = render_data[Renderable]
         mine = render_data[TR]
         off, whence, size, dur = d.frame_offset, d.seek_whence, d.size, d.duration
-        foo, bar = render_args[Base].foo, render_args[TR].bar
+        # equal settings give equal output: True / 1 / 1.0 and 0.0 / -0.0 / 0 / False are the same value
+        foo, bar = int(render_args[Base].foo), int(render_args[TR].bar)
+        if dur is not FrameDuration.DYNAMIC:
+            dur = int(dur)
         durs = "D" if dur is FrameDuration.DYNAMIC else dur
         self.calls.append(f"{off} {whence.value} {size.width} {size.height} {durs} {foo} {bar}")
         if self.definite:
@@ -165,18 +168,39 @@ def mk_padding(p):
     return AlignedPadding(p[1], p[2], HAlign(p[3]), VAlign(p[4]), FILLS[p[5]])
 
 
+# Python spellings of one wire value (equal AND hash-equal objects of different types).  `mode` 0 = the
+# value as is; otherwise the spelling cycles deterministically with a per-run counter, so a cached and
+# an uncached run of the same history receive the same objects.
+PYVAR = {"mode": 0, "ctr": 0}
+
+
+def pyval(v, ints_only=False):
+    if not PYVAR["mode"] or not isinstance(v, int):
+        return v
+    PYVAR["ctr"] += 1
+    if v == 1:
+        choices = [1, True] if ints_only else [1, True, 1.0]
+    elif v == 0:
+        choices = [0, False] if ints_only else [0, 0.0, -0.0, False]
+    elif abs(v) < 100 and not ints_only:
+        choices = [v, float(v)]
+    else:
+        choices = [v]
+    return choices[(PYVAR["ctr"] * PYVAR["mode"]) % len(choices)]
+
+
 def mk_args(a):
     if a[0] == "own":
-        return RenderArgs(TR, BaseArgs(a[1]), TRArgs(a[2]))
+        return RenderArgs(TR, BaseArgs(pyval(a[1])), TRArgs(pyval(a[2])))
     if a[0] == "base":
-        return RenderArgs(Base, BaseArgs(a[1]))
+        return RenderArgs(Base, BaseArgs(pyval(a[1])))
     if a[0] == "root":
         return RenderArgs(Renderable)
     return RenderArgs(Other)
 
 
 def mk_dur(d):
-    return FrameDuration.DYNAMIC if d == "D" else d
+    return FrameDuration.DYNAMIC if d == "D" else pyval(d, ints_only=True)
 
 
 def toks(x) -> str:
@@ -244,7 +268,8 @@ def decode_frame(f: Frame) -> str:
         fill = str(FILLS.index(fch))
     # self-check: the output is exactly the padding of `ih` copies of the request line
     width = left + iw + right
-    expect = [fch * width] * top + [fch * left + inner + fch * right] * ih + [fch * width] * bottom
+    edge = [fch * width] if top or bottom else [""]  # (a huge declared width must not be materialised)
+    expect = edge * top + [fch * left + inner + fch * right] * ih + edge * bottom
     if lines != expect:
         return f"f {f.number} {f.duration} {f.render_size.width} {f.render_size.height} garbled-layout"
     return (f"f {f.number} {f.duration} {f.render_size.width} {f.render_size.height} "
@@ -259,6 +284,7 @@ class RealRun:
 
     def __init__(self, c):
         set_term(*c["term"])
+        PYVAR["mode"], PYVAR["ctr"] = c.get("pyvar", 0), 0
         self.r = r = TR(c["count"], mk_dur(c["dur"]) if c["count"] != 1 else 1, c["size"], c["stream"], c["stop_at"], c["fail_at"])
         if c["rframe"]:
             r.seek(c["rframe"])
